@@ -477,7 +477,10 @@ def apply_edit(sv, e):
         for st in sorted(set(o["fr"] for o in s.obs if o["t"] == "direction")):
             s.orient.setdefault(st, 12.3456)
     elif k == "InputFeatures":
-        s.feat = set(sv.feat) | {{1: "coords_split", 2: "dh_dist", 3: "dh_dist_only", 4: "dir_dh", 5: "extern", 6: "angle_dh"}[e["s"]]}
+        s.feat = set(sv.feat) | {{1: "coords_split", 2: "dh_dist", 3: "dh_dist_only", 4: "dir_dh", 5: "extern", 6: "angle_dh", 7: "ellipsoid"}[e["s"]]}
+        if e["s"] == 7:
+            s.params = dict(s.params, latitude="49.5", ellipsoid="wgs84", algorithm="svd")
+            s.params["cov-band"] = "2"
     elif k == "AttachHeights":
         for i, o in enumerate(s.obs):
             if o["t"] in ("s-distance", "z-angle"):
